@@ -185,6 +185,13 @@ int attr_tree_set_value(struct attr_tree *tree, const char *path_str,
 	return -1;
     }
 
+    /* the setters use a string value as a NUL-terminated C string */
+    if (type == xcm_attr_type_str && ((const char *)value)[len - 1] != '\0') {
+	LOG_ATTR_TREE_SET_INVALID_LEN(log_ref, path_str, len);
+	errno = EINVAL;
+	return -1;
+    }
+
     struct attr_path *path = attr_path_parse(path_str, true);
 
     if (path == NULL) {
